@@ -24,6 +24,7 @@ import (
 	"reflect"
 	"runtime/debug"
 	"sort"
+	"strings"
 	"unsafe"
 
 	"verif/envio"
@@ -476,6 +477,31 @@ func c04Victims(tier string) []c04Victim {
 	for _, p := range seedEntryPairs(dg) {
 		if entryPoints[p.e].alloc {
 			out = append(out, c04Victim{"seed " + dg[p.s].name, dg[p.s].doc.B, p.e, nil})
+		}
+	}
+	// ... and every cut of the first shape of each of them, and of a directory that holds embedded values only: the
+	// directory, its next-directory offset or the one value is missing while nothing is pending
+	emb := gen.EncodeTIFF(&gen.Rec{Entries: []gen.Entry{
+		{Dir: gen.DirIFD0, Tag: 0x0100, Name: "ImageWidth", V: gen.Short(4000)},
+		{Dir: gen.DirIFD0, Tag: 0x0101, Name: "ImageLength", V: gen.Short(3000)},
+		{Dir: gen.DirIFD0, Tag: 0x0112, Name: "Orientation", V: gen.Short(6)}}}, gen.CanonicalLayout(), binary.LittleEndian, gen.AllDirs)
+	cutSeeds := []seed{{name: "embedded-values-only-II", kind: "tiff", doc: &gen.Doc{B: emb.B}, gen: true}}
+	for _, s := range dg {
+		if strings.Contains(s.name, "-0-II") || strings.Contains(s.name, "-0-MM") {
+			cutSeeds = append(cutSeeds, s)
+		}
+	}
+	for _, p := range seedEntryPairs(cutSeeds) {
+		if !entryPoints[p.e].alloc {
+			continue
+		}
+		b := cutSeeds[p.s].doc.B
+		end := len(b)
+		if end > 64+8 && p.s > 0 {
+			end -= 64 // the trailing filler of the degenerate records
+		}
+		for k := 8; k < end; k++ {
+			out = append(out, c04Victim{fmt.Sprintf("seed %s cut at %d", cutSeeds[p.s].name, k), b[:k], p.e, nil})
 		}
 	}
 	// single-field malformations
